@@ -3,6 +3,8 @@ mod benchmarks;
 mod mempool_state;
 mod recent_execution_results;
 mod transactions_container;
+#[cfg(all(test, feature = "verif"))]
+mod verif;
 
 use std::{
     collections::{
